@@ -1,5 +1,6 @@
 import ParanoidModel.Driver.Common
 import ParanoidModel.Model.Nist
+import ParanoidModel.Model.NistFloat
 namespace Paranoid.Driver
 open Paranoid.Proto Paranoid.Nist
 
@@ -74,6 +75,12 @@ def nistOps : Dispatcher := fun op args =>
       let k ← parseNat? k; let chk ← parseBool? chk
       pure (fmtExcept (fun o => sp [hexNat o.r, hexNat o.c, hexNat o.k, fmtBool o.approx, fmtNatList o.hist])
         (binaryMatrixRank b n r c k chk))
+  -- with the float oracle of the ChiSquare call (Model/NistFloat.lean): badProb badSum
+  | "nist.rank", [b, n, r, c, k, chk, bp, bsum] => do
+      let b ← parseBig? b; let n ← parseNat? n; let r ← parseNat? r; let c ← parseNat? c
+      let k ← parseNat? k; let chk ← parseBool? chk; let bp ← parseBool? bp; let bsum ← parseBool? bsum
+      pure (fmtExcept (fun o => sp [hexNat o.r, hexNat o.c, hexNat o.k, fmtBool o.approx, fmtNatList o.hist])
+        (binaryMatrixRankF { badProb := bp, badSum := bsum } b n r c k chk))
   | "nist.notm", [b, n, blocks, m, ts] => do
       let b ← parseBig? b; let n ← parseNat? n; let blocks ← parseNat? blocks
       let m ← parseOptNat? m
@@ -83,6 +90,11 @@ def nistOps : Dispatcher := fun op args =>
   | "nist.otm", [b, n, m, bs] => do
       let b ← parseBig? b; let n ← parseNat? n; let m ← parseOptNat? m; let bs ← parseOptNat? bs
       pure (fmtExcept (fun o => sp [hexNat o.m, hexNat o.blockSize, fmtNatList o.hist]) (overlapping b n m bs))
+  | "nist.otm", [b, n, m, bs, bp, bsum] => do
+      let b ← parseBig? b; let n ← parseNat? n; let m ← parseOptNat? m; let bs ← parseOptNat? bs
+      let bp ← parseBool? bp; let bsum ← parseBool? bsum
+      pure (fmtExcept (fun o => sp [hexNat o.m, hexNat o.blockSize, fmtNatList o.hist])
+        (overlappingF { badProb := bp, badSum := bsum } b n m bs))
   | "nist.universal", [b, n] => do
       let b ← parseBig? b; let n ← parseNat? n
       pure (fmtExcept (fun o => sp [hexNat o.blockSize, hexNat o.q, hexNat o.k, fmtNistPairs o.dists]) (universal b n))
@@ -108,6 +120,12 @@ def nistOps : Dispatcher := fun op args =>
       let b ← parseBig? b; let n ← parseNat? n; let ms ← parseNat? ms; let mc ← parseNat? mc
       let msv ← parseNat? msv
       pure (fmtExcept fmtRW (randomWalk .repaired b n ms mc msv) ++ " | pinned " ++
+        fmtPinned (randomWalk .pinned b n ms mc msv))
+  -- with the float oracle excZero (Model/NistFloat.lean)
+  | "nist.randomwalk", [b, n, ms, mc, msv, ez] => do
+      let b ← parseBig? b; let n ← parseNat? n; let ms ← parseNat? ms; let mc ← parseNat? mc
+      let msv ← parseNat? msv; let ez ← parseBool? ez
+      pure (fmtExcept fmtRW (randomWalkF ez .repaired b n ms mc msv) ++ " | pinned " ++
         fmtPinned (randomWalk .pinned b n ms mc msv))
   | "nist.largerank", [b, n] => do
       let b ← parseBig? b; let n ← parseNat? n
